@@ -26,6 +26,11 @@ RULE = (
     "distinct = blake2b(stream, schedule, bufsize, reads); non-trivial = at least 2 recv segments and >= 1 read "
     "spanning a segment boundary or a fault"
 )
+RULE += (
+    ' Also: chunked-mode invariants (conservation against the decoded chunk bodies), one scripted socket'
+    ' in four TLS-like (has read()), receive timeouts placed exactly BETWEEN items with the consumer'
+    ' re-iterating the same reader (must equal the fault-free messages).'
+)
 ASSUMPTIONS = [
     "ScriptedSocket is a real socket.socket subclass whose recv(n) clips segments to n like a kernel would",
     "file/socket equality is only required for streams whose '$' lines end in CRLF (SocketWrapper.readline stops at "
